@@ -1465,7 +1465,11 @@ ReorderDataCallback(DataNode & node, void * userData)
    if (indexNode)
    {
       DataNodeRef childNodeRef;
-      if (indexNode->GetChild(node.GetNodeName(), childNodeRef).IsOK()) (void) indexNode->ReorderChild(childNodeRef, *static_cast<const String *>(userData), this);
+      if (indexNode->GetChild(node.GetNodeName(), childNodeRef).IsOK())
+      {
+         _indexingPresent = true;  // disable optimization in GetDataCallback():  ReorderChild() may give (indexNode) an index that our own client needs to be told about
+         (void) indexNode->ReorderChild(childNodeRef, *static_cast<const String *>(userData), this);
+      }
    }
    return node.GetDepth();
 }
